@@ -313,6 +313,10 @@ package vm
 // taken more than one line from standard input; what it holds is lost with it, so the reader READ
 // uses must outlive the instruction: it is the reader the machine was created with.
 //@   atcall ReadString with (callee_b *bufio.Reader) requires[reader_outlives_read;C17] callee_b == old(vm.stdin)
+// ... and a line is what ReadString returns (a string of its own, the whole line): ReadSlice / ReadLine hand out views
+// into the reader's buffer that the next read overwrites and give up on lines longer than the buffer.
+//@   forbid .ReadSlice( [whole_lines_in_their_own_storage;C17,C10]
+//@   forbid .ReadLine( [whole_lines_in_their_own_storage;C17,C10]
 //
 // C17: write prints its argument as it is (the text toa would give), nothing else.
 //@   atcall fmt.Print with (callee_a []any) requires[write_prints_the_value;C17] len(callee_a) == 1 && eqv(callee_a[0], any(iter(opnd0(cs, ds, m, ip))))
